@@ -455,7 +455,7 @@ func c05Child() {
 		val, rerr = machine.Run(b.Program, ev)
 	}()
 	tick := time.NewTicker(10 * time.Millisecond)
-	deadline := time.After(4 * time.Second)
+	deadline := time.After(10 * time.Second) // counted from the start of Run only (the build is already done)
 	for {
 		select {
 		case <-done:
@@ -487,7 +487,7 @@ func c05RunChild(s c05BigSpec) (*c05ChildOut, error) {
 	if err != nil {
 		return nil, err
 	}
-	ctx, cancel := context.WithTimeout(context.Background(), 30*time.Second)
+	ctx, cancel := context.WithTimeout(context.Background(), 180*time.Second)
 	defer cancel()
 	cmd := exec.CommandContext(ctx, self, "c05-child")
 	in, _ := json.Marshal(s)
@@ -495,6 +495,10 @@ func c05RunChild(s c05BigSpec) (*c05ChildOut, error) {
 	var stdout, stderr bytes.Buffer
 	cmd.Stdout, cmd.Stderr = &stdout, &stderr
 	if err := cmd.Run(); err != nil {
+		if ctx.Err() != nil {
+			// the whole child (build included) did not finish: an overloaded machine, not a verdict
+			return nil, fmt.Errorf("child process killed after 180 s (machine overloaded?)")
+		}
 		return &c05ChildOut{Aborted: "crashed: " + err.Error() + " " + c05Tail(stderr.String(), 300)}, nil
 	}
 	var out c05ChildOut
